@@ -402,7 +402,7 @@ def finish (cfg : Config) (unknown : Option Any) (d : Any) :
     match get cfg path d with
     | .ok v => .present v
     | .error .unmodelled => .unmodelled
-    | .error .panic => .panic
+    | .error .panic => .error
     | .error .notFound =>
       match unknown with
       | some u => .present u
